@@ -52,13 +52,14 @@ class Static:
                                "cost": Fraction(f.get("cost", "0")), "solo": bool(f.get("solo")), "abs": set(f.get("abs", []))})
         self.team_members = [[i for i, w in enumerate(self.W) if w["team"] == ti] for ti in range(len(case.get("teams", [])))]
         self.wp_members = [[i for i, f in enumerate(self.F) if f["wp"] == pi] for pi in range(len(case.get("wps", [])))]
-        self.cap = [Fraction(w.get("cap", "1")) for w in case.get("wps", [])]
+        self.cap = [Fraction(10 ** 9) if w.get("cap") == "inf" else Fraction(w.get("cap", "1")) for w in case.get("wps", [])]
         self.wp_inputs = [list(w.get("inputs", [])) for w in case.get("wps", [])]
         C = case.get("comps", [])
         self.nc = len(C)
         self.size = [Fraction(c.get("size", "1")) for c in C]
         self.children = [list(c.get("children", [])) for c in C]
         self.parents = [[j for j in range(len(C)) if i in self.children[j]] for i in range(len(C))]
+        self.ghost = [bool(c.get("ghost_parent")) for c in C]       # has a parent that is not part of the product
         self.comp_tasks = [[i for i, t in enumerate(T) if t.get("comp") == c] + list(C[c].get("extra_tasks", [])) for c in range(len(C))]
 
     def wskill(self, w, t):
@@ -757,7 +758,7 @@ def c13(S, rec, events=None):
             # (e) finished top-level components are placed nowhere
             for c in range(S.nc):
                 tree = [c] + sorted(S.descendants(c))
-                if not S.parents[c] and all(sn["T"][t]["st"] == FIN for x in tree for t in S.comp_tasks[x]) \
+                if not S.parents[c] and not S.ghost[c] and all(sn["T"][t]["st"] == FIN for x in tree for t in S.comp_tasks[x]) \
                         and any(sn["C"][x]["pw"] is not None for x in tree):
                     out.append(V("(e) a component whose tasks are all FINISHED is still placed", "C13/e", (k, c)))
         if ph in ("allocated", "recorded"):
